@@ -21,7 +21,9 @@ RULE = ("case = component-DAG UFO (3-14 glyphs, nested / mirrored / sheared refe
         "bases) with kerning groups, mark anchors and categories x a random skip subset (glyphs used "
         "as components at any depth, skipped-in-skipped chains, kerning-group members and keys, "
         "anchored glyphs) given by argument, by the UFO lib, by both (argument wins) or by the "
-        "designspace lib (2-master interpolatable / variable stratum) x OTF / TTF; compiled with and "
+        "designspace lib (2-master interpolatable / variable stratum) x OTF / TTF, plus 12 % sparse-master "
+        "designspaces (leaf <- middle <- top chains, non-linear sparse layer masters of skipped inner "
+        "glyphs; variable fonts read back at 9 axis positions); compiled with and "
         "without the skip list; distinct = sha1 of the case; non-trivial = both compiles succeeded "
         "and >= 1 remaining glyph references a skipped glyph (directly or through another glyph)")
 ASSUMPTIONS = [
